@@ -1,0 +1,66 @@
+//go:build verif
+// +build verif
+
+package fuse
+
+import (
+	"fmt"
+	"sort"
+	"strings"
+
+	"github.com/jacobsa/fuse/fuseops"
+	"github.com/jacobsa/fuse/fuseutil"
+)
+
+// Verification hooks (build tag verif): give the model checker in /verif access to the file system operation
+// interface without a kernel mount, and a canonical dump of the mutable file system's internal tables.
+
+// VerifFS returns the file system served by a read-only mount.
+func (dfs *ReadOnlyFS) VerifFS() fuseutil.FileSystem { return dfs.fsInternal }
+
+// VerifFS returns the file system served by a mutable mount.
+func (dfs *MutableFS) VerifFS() fuseutil.FileSystem { return dfs.fsInternal }
+
+// VerifDump renders the lookup tree, the readdir map, the node store and the inode allocator in a canonical form.
+func (dfs *MutableFS) VerifDump() string {
+	fs := dfs.fsInternal
+	var sb strings.Builder
+	var lk []string
+	fs.lookupTree.Root().Walk(func(k []byte, v interface{}) bool {
+		le := v.(lookupEntry)
+		parent := uint64(0)
+		for _, b := range k[:8] {
+			parent = parent<<8 | uint64(b)
+		}
+		lk = append(lk, fmt.Sprintf("%d/%s->%d", parent, string(k[8:]), le.iNode))
+		return false
+	})
+	sort.Strings(lk)
+	sb.WriteString("lookup[" + strings.Join(lk, " ") + "]")
+	var rd []string
+	for dir, children := range fs.readDirMap {
+		var cs []string
+		for id, d := range children {
+			cs = append(cs, fmt.Sprintf("%d:%s:%d", id, d.Name, d.Type))
+		}
+		sort.Strings(cs)
+		rd = append(rd, fmt.Sprintf("%d{%s}", dir, strings.Join(cs, ",")))
+	}
+	sort.Strings(rd)
+	sb.WriteString(" readdir[" + strings.Join(rd, " ") + "]")
+	var ns []string
+	fs.iNodeStore.Root().Walk(func(k []byte, v interface{}) bool {
+		n := v.(*nodeEntry)
+		id := uint64(0)
+		for _, b := range k {
+			id = id<<8 | uint64(b)
+		}
+		ns = append(ns, fmt.Sprintf("%d(ref=%d,nlink=%d,dir=%v,size=%d)", id, n.refCount, n.attr.Nlink, n.attr.Mode.IsDir(), n.attr.Size))
+		return false
+	})
+	sort.Slice(ns, func(i, j int) bool { return ns[i] < ns[j] })
+	sb.WriteString(" nodes[" + strings.Join(ns, " ") + "]")
+	free := append([]fuseops.InodeID(nil), fs.iNodeGenerator.freeInodes...)
+	sb.WriteString(fmt.Sprintf(" alloc[highest=%d free=%v]", fs.iNodeGenerator.highestInode, free))
+	return sb.String()
+}
